@@ -1,6 +1,8 @@
 package p03
 
 import (
+	"strconv"
+
 	"verifharness/internal/run"
 )
 
@@ -130,4 +132,88 @@ var pins = []pin{
 		s.Monotone = false
 		runSpec(c, cs, s, []*Variant{oneFile("base-snap", "snap", 5), slowFile("v1-slow", 5)}, dir)
 	}},
+	// ---- boundary cases that are always run (no defect attached)
+	{"one-parse-error", func(c *run.Ctx, cs Case, dir string) {
+		// exactly one increment that is not a number: exit status 2, the other lines aggregated
+		rows := mkLines([5]string{"a", "x", "3"}, [5]string{"b", "y", "oops", "n/a"}, [5]string{"a", "y", "5"}, [5]string{"c", "x", "1"}, [5]string{"a", "x", "2"})
+		for _, cmd := range []string{"histo", "table", "heatmap", "spark", "bars", "analyze"} {
+			var s *Spec
+			switch cmd {
+			case "histo":
+				s = baseSpec(cmd, rows, fld(1), fld(3))
+				s.N = 5
+			case "analyze":
+				s = baseSpec(cmd, rows, fld(4))
+			case "bars":
+				s = baseSpec(cmd, rows, fld(1), fld(2), fld(3))
+				s.CmdArgs = []string{"--sort", "text"}
+			default:
+				s = baseSpec(cmd, rows, fld(1), fld(2), fld(3))
+				s.CmdArgs = []string{"--sort-rows", "text", "--sort-cols", "text"}
+				if cmd == "spark" {
+					s.CmdArgs = append(s.CmdArgs, "--notruncate")
+				}
+				s.N, s.Cols = 20, 65
+				if cmd == "table" {
+					s.Cols = 10
+				}
+			}
+			s.Monotone = cmd != "bars"
+			multi := oneFile("v1-batch1", "csv", len(rows))
+			if cmd == "analyze" {
+				multi.Mode = "snap"
+			}
+			multi.Batch, multi.Single, multi.Workers, multi.GMP = 1, false, 4, 2
+			vs := []*Variant{oneFile("base-csv", "csv", len(rows)), oneFile("base-snap", "snap", len(rows)), multi}
+			if cmd == "analyze" {
+				vs = vs[1:]
+			}
+			runSpec(c, cs, s, vs, dir)
+		}
+	}},
+	{"spark-truncation", func(c *run.Ctx, cs Case, dir string) {
+		// six columns, room for three: the last three in --sort-cols order stay, rows left without a cell go
+		rows := mkLines([5]string{"c1", "r1", "1"}, [5]string{"c2", "r1", "2"}, [5]string{"c3", "r2", "3"}, [5]string{"c4", "r2", "4"},
+			[5]string{"c5", "r3", "5"}, [5]string{"c6", "r3", "6"}, [5]string{"c1", "r4", "7"}, [5]string{"c6", "r1", "8"})
+		for _, desc := range []bool{false, true} {
+			s := baseSpec("spark", rows, fld(1), fld(2), fld(3))
+			s.N, s.Cols, s.Trunc, s.TruncDesc = 20, 3, true, desc
+			srt := "text"
+			if desc {
+				srt = "text:desc"
+			}
+			s.CmdArgs = []string{"--cols", "3", "--sort-rows", "text", "--sort-cols", srt}
+			multi := oneFile("v1-batch1", "csv", len(rows))
+			multi.Batch, multi.Single, multi.Workers = 1, false, 3
+			multi.Points = "agg.afterSampleBatch=sleep:60ms:n4" // lets intermediate renders trim along the way
+			runSpec(c, cs, s, []*Variant{oneFile("base-csv", "csv", len(rows)), oneFile("base-snap", "snap", len(rows)), multi}, dir)
+		}
+	}},
+	{"big-many-keys", func(c *run.Ctx, cs Case, dir string) {
+		// 250 000 lines over 4 000 keys: sampling and the 100 ms render ticker really overlap in time here
+		const n = 250000
+		lines := make([]Line, n)
+		for i := range lines {
+			k := (i * 7919) % 4000
+			l := Line{Kind: 'L'}
+			l.F[1] = "key" + itoa(k)
+			l.F[2] = "s" + itoa(i%7)
+			l.F[3] = itoa(1 + i%5)
+			l.F[4] = itoa(i % 1000)
+			l.F[5] = "keep"
+			lines[i] = l
+		}
+		s := baseSpec("histo", lines, fld(1), fld(3))
+		s.N, s.Monotone = 5, false
+		s.CmdArgs = []string{"-n", "5"}
+		multi := oneFile("v1-batch200", "csv", n)
+		multi.Batch, multi.Single, multi.Workers = 200, false, 8
+		split := &Variant{Name: "v2-split-gz", Mode: "csv", Files: make([][]int, 4), Gz: []bool{true, false, true, true}, NoNL: make([]bool, 4), ZFlag: true, Workers: 4, Batch: 1000, Readers: 4}
+		for i := 0; i < n; i++ {
+			split.Files[(i/1000)%4] = append(split.Files[(i/1000)%4], i)
+		}
+		runSpec(c, cs, s, []*Variant{oneFile("base-csv", "csv", n), oneFile("base-snap", "snap", n), multi, split}, dir)
+	}},
 }
+
+func itoa(i int) string { return strconv.Itoa(i) }
